@@ -13,6 +13,7 @@ def obligations(tier):
                                   desc="accepted item x followed by %d fully symbolic bytes y: same read, same tree as x alone" % k)
     o += tc.batch_obligations("sequence_xyx", fam, "h_load.c", {"P_SEQ": 1}, variant="dbg", truncations=False, weight_cap=90, max_cases=12, funcs=F, ptrcheck=False, extra_unwind=6,
                               desc="concatenation x||y||x of accepted items (pairs of consecutive family members) split by the documented loop offset += read into exactly those items")
+    o += tc.large_obligations("suffix2_large", {"P_SUFFIX": 2}, "load", funcs=F, select=lambda s: len(s["outcome"].nodes) <= 60,  desc="large shapes followed by 2 symbolic bytes")
     return o
 
 
